@@ -109,3 +109,12 @@ def f4_constructed(h, viol, ftxt):
                 if j != v and k != v and has(v, j) and has(v, k):
                     e2[(j, k)] = 1 - e1.get((j, k), 0)
     return (not _connected(n, e1)) and _lc_solution_space_dim(n, e1, e2) >= 5
+
+
+F16_LABELS = ["IZIZY", "XXYXI", "YYYIX", "ZIZII", "ZZIII"]
+
+
+def f16_inverse_circuit_5q(h, viol, ftxt):
+    """inverse_circuit does not reach |0...0> for the 5-qubit Pauli pattern F16_LABELS (any signs): the greedy pivot
+    choice of its first Hadamard block leaves the last column without a pivot"""
+    return list(h.params.get("labels", [])) == F16_LABELS
